@@ -20,8 +20,21 @@ RULE = ("cases: random rooted trees with 2..6 nodes (all ordered trees up to 5 n
         "child order, Hermitian or not, 2 consecutive steps, three TDVP variants; every time_evolve call is one "
         "evaluation; non-trivial = distinct (tree shape, variant, seed) with at least 3 nodes or a redundant bond")
 PARTIAL = ["the local propagator itself (time_evolve) is property C20",
-           "cache-freshness discipline is not a separate theorem: it is decided per call by the dense E^H H E oracle",
-           "that the segments {u_i, h_i} enumerate the tree edges exactly once is property C17 (checked here per run)"]
+           "durations: proved for arbitrary segment lists (first_*/second_*/twoSite_* totals) and, with the C17 segment "
+           "theorems (segs_edges_perm, segs_point_to_last, segs_degree), unconditionally for every well-formed tree "
+           "(first_order_tree, second_order_tree, two_site_tree: every node and every edge of the tree); the totals "
+           "are re-checked here per run",
+           "cache freshness: proved on an abstract machine (Ptn.C05.Disc.discipline_init, reads_fresh_first/second/"
+           "two_site, discipline_invariant: no event of a whole time step reads a stale block, on every well-formed "
+           "tree); init_cache_but_one is one atomic event of that machine (its internal build order is checked per run "
+           "in C17); the machine is tied to the real classes by the event comparison in harness/props/c17.py and, per "
+           "call, by the dense E^H H E oracle here",
+           "effective Hamiltonians: proved as leg graphs in the C04 leg-label calculus (Ptn.C05.Heff.site_heff_graph, "
+           "link_heff_graph, two_site_heff_graph: rows / columns / bound pairs for every neighbour order), compared with "
+           "the real functions by the 'heff' cases of harness/props/c04.py; that the leg graph evaluates to E^H H E "
+           "(value level, NumPy semantics) and the leg order of the contracted two-site tensor (C02) are decided by the "
+           "dense oracle",
+           "step / reset / step histories are decided by the oracle only"]
 ASSUMPTIONS = ["dense embedding built from algo.state by tensordot over labelled legs (harness/dense.py)",
                "numpy tensordot / reshape semantics"]
 
